@@ -63,7 +63,9 @@ static int sched[4096]; static int nsched, sched_pos;
 
 /* connection and calls */
 static DBusConnection *conn; static int peer = -1, lsock = -1;
-static struct { DBusPendingCall *p; dbus_uint32_t serial; int notified; int block_returned; int cancelled; int cancel_step, notify_step; } pc[3];
+static struct { DBusPendingCall *p; dbus_uint32_t serial; int notified; int block_returned; int cancelled; int cancel_step, notify_step; } pc[5];
+static dbus_uint32_t sent_serials[8]; static int n_sent_serials;   /* serials handed out to messages sent while the threads run */
+static int call_timeout_ms;
 static const char *env_spec = "";
 static int env_done[8];
 static int free_run;
@@ -94,7 +96,9 @@ static void macquire (void *m, int tid) { int s = mslot (m); mtab[s].owner = tid
 static void mrelease (void *m) { int s = mslot (m); if (--mtab[s].count <= 0) { mtab[s].owner = -1; mtab[s].count = 0; mtab[s].m = NULL; } }
 
 /* ---- environment ----------------------------------------------------------- */
-static const char *env_names[] = { "r1", "r2", "d1", "x" };
+void _dbus_verif_connection_set_next_serial (DBusConnection *connection, dbus_uint32_t serial);
+static const char *env_names[] = { "r1", "r2", "d1", "x", "r3", "r4" };
+#define NENV 6
 static int env_wanted (int k) { return strstr (env_spec, env_names[k]) != NULL; }
 
 static void peer_send_reply (int call, int dup)
@@ -125,6 +129,8 @@ static void env_perform (int k)
     case 1: peer_send_reply (2, 0); break;
     case 2: peer_send_reply (1, 1); break;
     case 3: if (peer >= 0) { close (peer); peer = -1; } break;
+    case 4: peer_send_reply (3, 0); break;
+    case 5: peer_send_reply (4, 0); break;
     }
 }
 
@@ -166,7 +172,7 @@ static int pick (void)
       /* canonical order: the running thread first if still enabled, then ascending ids, then environment */
       if (current >= 0 && thread_enabled (&thr[current])) { cand[n] = current; kind[n++] = 0; }
       for (i = 0; i < nthr; i++) if (i != current && thread_enabled (&thr[i])) { cand[n] = i; kind[n++] = 0; }
-      for (i = 0; i < 4; i++) if (env_wanted (i) && !env_done[i] && (i != 2 || env_done[0]) && peer >= 0) { cand[n] = i; kind[n++] = 1; }
+      for (i = 0; i < NENV; i++) if (env_wanted (i) && !env_done[i] && (i != 2 || env_done[0]) && (i < 4 || pc[i - 1].serial != 0) && peer >= 0) { cand[n] = i; kind[n++] = 1; }
       /* a timer may fire for a thread blocked with a finite timeout that is not otherwise enabled */
       for (i = 0; i < nthr; i++)
         if (thr[i].alive && !thr[i].done && !thr[i].fired &&
@@ -283,13 +289,39 @@ static void run_body (const char *b)
   if (!strncmp (b, "block", 5)) { int i = b[5] - '0'; dbus_pending_call_block (pc[i].p); A_SET (pc[i].block_returned, 1); }
   else if (!strncmp (b, "cancel", 6)) { int i = b[6] - '0'; dbus_pending_call_cancel (pc[i].p); A_SET (pc[i].cancelled, 1); A_SET (pc[i].cancel_step, A_INC (steps)); }
   else if (!strcmp (b, "close")) dbus_connection_close (conn);
+  else if (!strncmp (b, "call", 4))
+    {
+      /* a call made while the other threads run: the serial is handed out, the pending call registered and the
+       * message queued by this thread; then it waits for its own reply.  No notify function: a reply may
+       * legitimately complete the call before one could be installed. */
+      int i = b[4] - '0'; DBusPendingCall *p = NULL;
+      DBusMessage *m = dbus_message_new_method_call ("peer.name", "/x", "x.y", "M");
+      if (m && dbus_connection_send_with_reply (conn, m, &p, call_timeout_ms) && p)
+        {
+          __atomic_store_n (&pc[i].p, p, __ATOMIC_SEQ_CST);
+          __atomic_store_n (&pc[i].serial, dbus_message_get_serial (m), __ATOMIC_SEQ_CST);
+          dbus_pending_call_block (p); A_SET (pc[i].block_returned, 1);
+        }
+      if (m) dbus_message_unref (m);
+    }
+  else if (!strcmp (b, "send"))
+    {
+      /* two signals sent while the other threads run: their serials must differ from every other serial handed out */
+      int k;
+      for (k = 0; k < 2; k++)
+        {
+          DBusMessage *m = dbus_message_new_signal ("/x", "x.y", "S"); dbus_uint32_t ser = 0;
+          if (m && dbus_connection_send (conn, m, &ser)) { int at = __atomic_fetch_add (&n_sent_serials, 1, __ATOMIC_SEQ_CST); if (at < 8) sent_serials[at] = ser; }
+          if (m) dbus_message_unref (m);
+        }
+    }
   else if (!strcmp (b, "dispatch"))
     {
       int k;
       for (k = 0; k < 4; k++)
         {
           if (!dbus_connection_read_write_dispatch (conn, 50)) break;
-          if (dbus_pending_call_get_completed (pc[1].p) && (!pc[2].p || dbus_pending_call_get_completed (pc[2].p))) break;
+          { int i, all = 1; for (i = 1; i <= 4; i++) { DBusPendingCall *q = __atomic_load_n (&pc[i].p, __ATOMIC_SEQ_CST); if (q && !dbus_pending_call_get_completed (q)) all = 0; } if (all) break; }
         }
     }
 }
@@ -317,6 +349,7 @@ static void *free_peer (void *arg)
   if (env_wanted (0)) env_perform (0);
   if (env_wanted (1)) env_perform (1);
   if (env_wanted (2)) env_perform (2);
+  { int k, spins; for (k = 4; k < NENV; k++) if (env_wanted (k)) { for (spins = 0; spins < 2000 && !__atomic_load_n (&pc[k - 1].serial, __ATOMIC_SEQ_CST); spins++) usleep (100); if (pc[k - 1].serial) env_perform (k); } }
   if (env_wanted (3)) { usleep (2000); env_perform (3); }
   return NULL;
 }
@@ -361,6 +394,8 @@ static int setup (const char *dir, int ncalls, int timeout_ms)
       else { if (send (peer, "ERROR\r\n", 7, MSG_NOSIGNAL) < 0) {} }
     }
   for (i = 0; i < 50 && !dbus_connection_get_is_authenticated (conn); i++) dbus_connection_read_write (conn, 0);
+  /* "wrap": the serial counter starts just below 2^32, so the serials handed out while the threads run cross the wrap */
+  if (strstr (env_spec, "wrap")) _dbus_verif_connection_set_next_serial (conn, 0xffffffffu - (dbus_uint32_t) ncalls);
   for (i = 1; i <= ncalls; i++)
     {
       DBusMessage *m = dbus_message_new_method_call ("peer.name", "/x", "x.y", "M");
@@ -383,9 +418,11 @@ int main (int argc, char **argv)
   free_run = argc > 5 && !strcmp (argv[5], "free");
   if (strcmp (argv[4], "-") != 0) { char *q = argv[4]; while (*q && nsched < 4096) { sched[nsched++] = (int) strtol (q, &q, 10); if (*q == ',') q++; } }
   if (strstr (bodies, "2")) ncalls = 2;
+  if (!strstr (bodies, "1") && !strstr (bodies, "2") && !strstr (bodies, "dispatch") && !strstr (bodies, "close")) ncalls = 0;   /* only calls made by the threads themselves */
   _dbus_verif_clock_hook = clock_hook;
   /* "inf" in the environment spec: the calls are made with DBUS_TIMEOUT_INFINITE (a wait that misses its reply never ends) */
-  if (!setup (argv[1], ncalls, free_run ? 300 : (strstr (env_spec, "inf") ? DBUS_TIMEOUT_INFINITE : 5000))) { printf ("status=setup-failed\n"); return 0; }
+  call_timeout_ms = free_run ? 300 : (strstr (env_spec, "inf") ? DBUS_TIMEOUT_INFINITE : 5000);
+  if (!setup (argv[1], ncalls, call_timeout_ms)) { printf ("status=setup-failed\n"); return 0; }
   for (p = strtok (bodies, ","); p && nthr < MAXT; p = strtok (NULL, ","))
     { thr[nthr].id = nthr; thr[nthr].body = p; thr[nthr].alive = 1; sem_init (&thr[nthr].sem, 0, 0); nthr++; }
   sem_init (&main_sem, 0, 0);
@@ -422,9 +459,10 @@ int main (int argc, char **argv)
           while (dbus_connection_get_dispatch_status (conn) == DBUS_DISPATCH_DATA_REMAINS) { dbus_connection_dispatch (conn); did = 1; }
           idle = did ? 0 : idle + 1;
         }
-      for (i = 1; i <= ncalls; i++)
+      for (i = 1; i <= 4; i++)
         {
           DBusMessage *r;
+          if (!pc[i].p) continue;
           ob_printf (&o, " pc%d=%d/%d/%d/%d/%d/%d/", i, dbus_pending_call_get_completed (pc[i].p), pc[i].notified, pc[i].block_returned, pc[i].cancelled, pc[i].cancel_step, pc[i].notify_step);
           if (dbus_pending_call_get_completed (pc[i].p) && (r = dbus_pending_call_steal_reply (pc[i].p)))
             {
@@ -435,7 +473,13 @@ int main (int argc, char **argv)
           else ob_puts (&o, "-");
         }
     }
-  printf ("status=%s steps=%d env=%d%d%d%d trace=%s%s\n", status, steps, env_done[0], env_done[1], env_done[2], env_done[3], trace.len ? trace.s : "-", o.len ? o.s : "");
+  {
+    /* every serial this connection handed out (calls, signals sent by the threads): judged non-zero and distinct */
+    ob_puts (&o, " serials=");
+    for (i = 1; i <= 4; i++) if (pc[i].serial) ob_printf (&o, "%u,", pc[i].serial);
+    for (i = 0; i < n_sent_serials && i < 8; i++) ob_printf (&o, "%u,", sent_serials[i]);
+  }
+  printf ("status=%s steps=%d env=%d%d%d%d%d%d trace=%s%s\n", status, steps, env_done[0], env_done[1], env_done[2], env_done[3], env_done[4], env_done[5], trace.len ? trace.s : "-", o.len ? o.s : "");
   fflush (stdout);
   _exit (0);
 }
